@@ -211,6 +211,25 @@ EXC_ALIASES = {'struct.error': ('error',), 'AttributeError': ('KeyError',), 'Key
 
 
 # ------------------------------------------------------------------------------------------------
+def load_baseline(prop):
+    p = os.path.join(VERIF, 'baseline', '%s.json' % prop)
+    if not os.path.exists(p):
+        return None
+    with open(p) as f:
+        return json.load(f)
+
+
+def write_baseline(res):
+    d = os.path.join(VERIF, 'baseline')
+    os.makedirs(d, exist_ok=True)
+    b = dict(property=res.prop,
+             functions=dict((f['contract'], dict(file=f['file'], function=f['function'], source_sha=f['source_sha'])) for f in res.functions),
+             discharged=sorted(full for full, ob, _, _ in res.obligs if ob.status == 'discharged'))
+    with open(os.path.join(d, '%s.json' % res.prop), 'w') as f:
+        json.dump(b, f, indent=1)
+    return b
+
+
 def load_known():
     p = os.path.join(VERIF, 'known_findings.json')
     if not os.path.exists(p):
@@ -222,6 +241,7 @@ def load_known():
 def check_property(prop, tier='quick', seed=0, only=None):
     t0 = time.time()
     res = Result(prop)
+    res.baseline = load_baseline(prop)
     mod = importlib.import_module('contracts.%s' % prop)
     repo = Repo()
     known = [k for k in load_known() if k.get('property') == prop and k.get('status') == 'known']
@@ -283,7 +303,29 @@ def check_property(prop, tier='quick', seed=0, only=None):
             res.by_backend[r['backend']] = res.by_backend.get(r['backend'], 0) + 1
         if ob.status == 'undecided':
             why = '; '.join(sorted(set(r['reason'] for r in ob.results if r['status'] == 'unknown')))
-            res.undecided.append((full, 'solver: ' + why))
+            # an obligation the solvers cannot decide is never a violation by itself; but if the
+            # contract's replay search finds an input on which the real code breaks the contract,
+            # the violation is real and is reported against this obligation
+            rep = None
+            replay = getattr(it, 'replay', None)
+            if replay is not None and full not in [k.get('obligation') for k in known]:
+                try:
+                    rep = replay(None, ob.name)
+                except Exception as e:
+                    rep = None
+            if rep and rep.get('confirmed'):
+                res.violations.append(dict(kind='obligation', obligation=full, line=ob.line, model=None, replay=rep,
+                                           solver=[dict(reason=why)]))
+            elif lost_by_code_change(res, full, it, eng):
+                # the obligation was discharged on the recorded baseline and the function text changed
+                # since: the change broke the proof.  Reported as a violation without a failing input.
+                res.violations.append(dict(kind='obligation', obligation=full, line=ob.line, model=None,
+                                           replay=dict(confirmed=False, note='obligation was discharged on the baseline tree; the '
+                                                       'function under contract has changed and the solvers no longer discharge it',
+                                                       solver_output=why),
+                                           solver=[dict(reason=why)]))
+            else:
+                res.undecided.append((full, 'solver: ' + why))
         elif ob.status == 'vacuous':
             res.undecided.append((full, 'vacuity: no path reaches this clause'))
         elif ob.status == 'refuted':
@@ -295,15 +337,29 @@ def check_property(prop, tier='quick', seed=0, only=None):
         except Exception:
             raise
         res.bounded = b
+        nb = 0
         for v in b.get('violations', []):
             k = match_known_bounded(v, known)
             if k is not None:
                 res.known.append((k, v))
-            else:
+            elif nb < 3:
+                nb += 1
                 res.violations.append(dict(kind='bounded', **v))
     res.assumptions = list(getattr(mod, 'ASSUMPTIONS', []))
     res.wall = time.time() - t0
     return res, mod
+
+
+def lost_by_code_change(res, full, it, eng):
+    b = res.baseline
+    if not b or full not in b.get('discharged', []):
+        return False
+    changed = False
+    cur = dict((f['contract'], f['source_sha']) for f in res.functions)
+    for c, info in b.get('functions', {}).items():
+        if cur.get(c) is not None and cur[c] != info['source_sha']:
+            changed = True
+    return changed
 
 
 def match_known_bounded(v, known):
@@ -370,7 +426,7 @@ def handle_refuted(res, full, ob, it, eng, known):
 
 
 def write_replay(prop, idx, v):
-    d = os.path.join(VERIF, 'replays')
+    d = os.environ.get('VERIF_REPLAY_DIR') or os.path.join(VERIF, 'replays')
     os.makedirs(d, exist_ok=True)
     name = v.get('obligation', v.get('key', 'case')).replace('/', '_').replace(' ', '_')
     for ch in '[]:@<>':
@@ -434,8 +490,9 @@ def finish(res, mod, tier, seed, level):
         cov['samples'] = samples + [dict(bounded_case=s) for s in b.get('samples', [])[:8]]
     ev = dict(property_id=prop, tier=tier, seed=seed, level=level, coverage=cov,
               assumptions=res.assumptions, wall_s=round(res.wall, 2), violations=len(res.violations))
-    os.makedirs(os.path.join(VERIF, 'evidence'), exist_ok=True)
-    with open(os.path.join(VERIF, 'evidence', '%s.json' % prop), 'w') as f:
+    evdir = os.environ.get('VERIF_EVIDENCE_DIR') or os.path.join(VERIF, 'evidence')
+    os.makedirs(evdir, exist_ok=True)
+    with open(os.path.join(evdir, '%s.json' % prop), 'w') as f:
         json.dump(ev, f, indent=1, default=repr)
     log('%s tier=%s: %d obligations (%d queries), %d discharged, %d undecided, %d violations, %d known; '
         'bounded evaluations=%s; solver %.1fs wall %.1fs'
@@ -460,6 +517,7 @@ def main(argv):
     ap.add_argument('--tier', default=os.environ.get('VERIF_TIER', 'quick'))
     ap.add_argument('--only', default=None)
     ap.add_argument('--replay', default=None)
+    ap.add_argument('--record-baseline', action='store_true')
     a = ap.parse_args(argv)
     seed = int(os.environ.get('VERIF_SEED', '0') or 0)
     sys.path.insert(0, VERIF)
@@ -473,6 +531,9 @@ def main(argv):
         return 0
     try:
         res, mod = check_property(a.prop, a.tier, seed, a.only)
+        if a.record_baseline:
+            b = write_baseline(res)
+            log('baseline recorded: %d discharged obligations' % len(b['discharged']))
         return finish(res, mod, a.tier, seed, getattr(mod, 'LEVEL', 'proof'))
     except CheckerDefect as e:
         log('CHECKER-DEFECT property=%s %s' % (a.prop, e))
